@@ -7,6 +7,7 @@ import (
 	"math/rand/v2"
 	"net"
 	"net/netip"
+	"strings"
 	"sync"
 	"time"
 
@@ -136,7 +137,7 @@ func (s *c03Srv) handle(srv *peer.NTPServer, dg []byte, from netip.AddrPort, rx 
 	e.tx64 = e.trueTx64
 	fl.Transmit = e.tx64
 	e.answered = "basic"
-	if ref != nil && mode != "basic-only" && mode != "delayed-basic" && ref.trueTx64 != 0 {
+	if ref != nil && mode != "basic-only" && !strings.HasSuffix(mode, "delayed-basic") && ref.trueTx64 != 0 {
 		fl.Origin, fl.Transmit = f.Receive, ref.trueTx64
 		e.answered = "interleaved"
 		e.tx64 = ref.trueTx64
@@ -146,7 +147,15 @@ func (s *c03Srv) handle(srv *peer.NTPServer, dg []byte, from netip.AddrPort, rx 
 		return
 	}
 	b := fl.Bytes()
-	if mode == "delayed" || mode == "delayed-basic" {
+	if mode == "turned-down-twice,delayed" || mode == "turned-down-twice,delayed-basic" {
+		// two datagrams the client turns down (they echo nothing it sent) use up its one retry: the
+		// attempt fails at once, not by its deadline, while the genuine reply is still under way
+		junk := peer.NTPFields{LVM: 0x24, Stratum: 1, Precision: -30, Origin: peer.UniqueTime64(), Receive: fl.Receive, Transmit: fl.Transmit}
+		send(junk.Bytes())
+		junk.Origin = peer.UniqueTime64()
+		send(junk.Bytes())
+	}
+	if strings.HasSuffix(mode, "delayed") || strings.HasSuffix(mode, "delayed-basic") {
 		// delayed beyond the client's timeout: this call ends without an answer
 		e.delayed = true
 		s.mu.Lock()
@@ -201,7 +210,7 @@ func init() {
 				}
 				mode := "normal"
 				if kind >= 2 {
-					mode = []string{"normal", "normal", "normal", "duplicate", "stale-first", "basic-only", "drop", "normal", "delayed", "delayed-basic"}[rng.IntN(10)]
+					mode = []string{"normal", "normal", "normal", "duplicate", "stale-first", "basic-only", "drop", "normal", "delayed", "delayed-basic", "turned-down-twice,delayed", "turned-down-twice,delayed-basic"}[rng.IntN(12)]
 				}
 				return cur, fwd, back, mode
 			}
